@@ -82,4 +82,10 @@ theorem source_iterator_yields_the_reported_tables (asset : String) (acctName : 
   · rw [h1, Tables.iterator_is_window _ _ _ _ _ _ (by rw [len]; omega)]
   · rw [h2, Tables.iterator_is_window _ _ _ _ _ _ (by rw [len]; omega)]
   · rw [h3, Tables.iterator_is_window _ _ _ _ _ _ (by rw [len]; omega)]
+
+/-- a run without date filters shows every entry: with bounds no entry lies outside (the defaults `MIN_DATE` / `MAX_DATE`) the translated
+    iterator yields the whole list, in order -/
+theorem source_iterator_without_filters_shows_everything {α : Type} (day utcDay : α → Int) (fromD toD : Int) (l : List α)
+    (hall : ∀ x ∈ l, fromD ≤ day x ∧ day x ≤ toD) : drain (Gen.L.iterNext day utcDay fromD toD) (l.length + 1) l = l :=
+  Tables.iterator_default_window day utcDay fromD toD l hall
 end Rp2.C10
